@@ -185,6 +185,40 @@ func TestPropagateTransactions(t *testing.T) {
 	}
 }
 
+// Where the lazy SELECT of a transaction stands, and slaveseldb = -1 after a replica attached.
+func TestPropagateSelectAroundMulti(t *testing.T) {
+	for _, tc := range []struct {
+		version string
+		want    string
+	}{
+		{"7.2.0", "MULTI | SELECT 0 | SET a 1 | SET b 1 | EXEC | SELECT 2 | SET o 1 | MULTI | SELECT 0 | SET a 2 | SET b 2 | EXEC | MULTI | SET a 3 | SET b 3 | EXEC | MULTI | SELECT 0 | SET a 4 | SET b 4 | EXEC | SELECT 0 | SET c 1"},
+		{"6.2.6", "SELECT 0 | MULTI | SET a 1 | SET b 1 | EXEC | SELECT 2 | SET o 1 | SELECT 0 | MULTI | SET a 2 | SET b 2 | EXEC | MULTI | SET a 3 | SET b 3 | EXEC | SELECT 0 | MULTI | SET a 4 | SET b 4 | EXEC | SELECT 0 | SET c 1"},
+	} {
+		now := int64(1_000_000)
+		s, p := propServer(t, tc.version, &now, PropagationOptions{})
+		c := dialT(t, s.Addr())
+		o := dialT(t, s.Addr())
+		o.do("SELECT", "2")
+		txn := func(v string) {
+			c.do("MULTI")
+			c.do("SET", "a", v)
+			c.do("SET", "b", v)
+			c.do("EXEC")
+		}
+		txn("1") // first propagated command of a fresh stream
+		o.do("SET", "o", "1")
+		txn("2") // the stream is in db 2
+		txn("3") // same database: no SELECT
+		p.ReplicaAttached()
+		txn("4")
+		p.ReplicaAttached()
+		c.do("SET", "c", "1")
+		if got := flat(parseStream(t, p.Bytes())); got != tc.want {
+			t.Fatalf("%s stream:\n got %s\nwant %s", tc.version, got, tc.want)
+		}
+	}
+}
+
 func TestPropagateRewrites(t *testing.T) {
 	now := int64(1_700_000_000_000)
 	s, p := propServer(t, "7.2.0", &now, PropagationOptions{})
